@@ -119,7 +119,9 @@ Definition instance_ok (F : forest) (g : graph) (mlog : log value) (golog : list
   | Some gi =>
     let steps := model_steps_at F g p mlog in
     let evs := events_at p golog in
-    if g_eager gi then seg_runs gi evs (split_runs steps [])
+    if g_eager gi
+    then seg_runs gi evs (map (filter (fun e : tevent => is_lambda_at F g (fst e)))
+                              (split_runs (log_steps_at value p mlog) []))
     else seg_ok evs steps
   end.
 
